@@ -39,11 +39,13 @@ import (
 // delayed, re-ordered or duplicated delivery has an exact expected result.
 
 type smsg struct {
-	form    string
-	data    []byte
-	content []refmodel.RefBin
-	gran    int
-	tainted bool
+	form       string
+	data       []byte
+	content    []refmodel.RefBin
+	gran       int
+	tainted    bool
+	deliveries int
+	sentAt     int
 }
 
 type snode struct {
@@ -55,8 +57,10 @@ type snode struct {
 	twin store.Store
 	// C14: read-free replica Q (never read before the end of the run).
 	replica store.Store
-	// copies made of this node / origin of this node, for copy independence
-	lay layout
+	// the other side(s) of every Copy this node took part in (C14 copy independence)
+	peers        []int
+	lay          layout
+	maxDelivered int
 }
 
 type storeExec struct {
@@ -161,7 +165,27 @@ func (x *storeExec) step(e engine.Event) {
 	}
 	sig := x.sigFor(e)
 	mutated := false
+	x.partner = !isStoreObserved(x.prop, nd.kind)
+	var peersBefore []*storeSnap
+	if x.prop == "C14" && len(nd.peers) > 0 && isMutation(e.Ev) {
+		for _, pid := range nd.peers {
+			peersBefore = append(peersBefore, x.snapStore(x.nodes[pid].real, "peer-before"))
+		}
+	}
+	defer func() {
+		for i, before := range peersBefore {
+			peer := x.nodes[nd.peers[i]]
+			x.st.Oracle("copy-independent")
+			after := x.snapStore(peer.real, "peer-after")
+			if d := before.diff(after); d != "" {
+				x.fail("copy-independent", sig, fmt.Sprintf("%s on one side of a copy changed the other side: %s", e.Ev, d), before.String(), after.String())
+			}
+		}
+	}()
 	switch e.Ev {
+	case "fault":
+		x.st.Fault(e.S)
+		return
 	case "add":
 		if !inInt32(e.I) || !spanFitsAfter(nd.model, int(e.I), int(e.I)) || !nd.model.FitsAfter(1, 0) {
 			return
@@ -254,6 +278,11 @@ func (x *storeExec) step(e engine.Event) {
 			x.lib("Copy(twin)", sig, func() { c.twin = nd.twin.Copy() })
 		}
 		c.lay, _ = inspect(c.real)
+		c.peers = append(append([]int(nil), nd.peers...), e.N)
+		for _, pid := range nd.peers {
+			x.nodes[pid].peers = append(x.nodes[pid].peers, e.M)
+		}
+		nd.peers = append(nd.peers, e.M)
 		x.nodes[e.M] = c
 		x.order = append(x.order, e.M)
 		if before != nil {
@@ -388,7 +417,7 @@ func (x *storeExec) send(e engine.Event, nd *snode, sig string) {
 	if x.prop == "C14" {
 		before = x.snapStore(nd.real, "send-before")
 	}
-	m := &smsg{form: e.S, content: nd.model.Bins(), gran: nd.model.Gran, tainted: nd.model.Tainted}
+	m := &smsg{form: e.S, content: nd.model.Bins(), gran: nd.model.Gran, tainted: nd.model.Tainted, sentAt: x.at}
 	switch e.S {
 	case "bin":
 		pre := int(e.I)
@@ -440,6 +469,19 @@ func (x *storeExec) deliver(e engine.Event, nd *snode, sig string) bool {
 	m := x.msgs[int(e.J)]
 	if m == nil {
 		return false
+	}
+	if int(e.J) < nd.maxDelivered {
+		x.st.Fault("reordered-delivery")
+	}
+	if int(e.J) > nd.maxDelivered {
+		nd.maxDelivered = int(e.J)
+	}
+	m.deliveries++
+	if m.deliveries > 1 {
+		x.st.Fault("duplicate-delivery")
+	}
+	if m.sentAt < len(x.plan.Events) && x.at-m.sentAt > 1 {
+		x.st.Fault("delayed-delivery")
 	}
 	if len(m.content) > 0 && !spanFitsAfter(nd.model, m.content[0].Index, m.content[len(m.content)-1].Index) {
 		return false
@@ -790,4 +832,12 @@ func (x *storeExec) quiesce() {
 			}
 		}
 	}
+}
+
+func isMutation(ev string) bool {
+	switch ev {
+	case "add", "addw", "addbin", "addrun", "merge", "clear", "reweight", "deliver":
+		return true
+	}
+	return false
 }
